@@ -28,10 +28,14 @@ def bsearch (d : Array Nat) (target : Nat) : Nat → Nat → Nat → Option Nat
 
 def find (d : List Nat) (x : Nat) : Option Nat := bsearch d.toArray x (d.length + 1) 0 d.length
 
+def maxDict : Nat := 1048576
+
 /-- `varintDictEncode`; `[]` = returns 0 -/
 def enc (xs : List Nat) : List Nat :=
   if xs = [] then [] else
   let d := build xs
+  -- as repaired: varintDictBuild fails above VARINT_DICT_MAX_SIZE entries (the decoders refuse them)
+  if d.length > maxDict then [] else
   let w := indexWidth d.length
   match xs.mapM (find d) with
   | none => []
@@ -42,9 +46,8 @@ def enc (xs : List Nat) : List Nat :=
 def size (xs : List Nat) : Nat :=
   if xs = [] then 0 else
   let d := build xs
+  if d.length > maxDict then 0 else
   Tagged.len d.length + (d.map Tagged.len).sum + Tagged.len xs.length + xs.length * indexWidth d.length
-
-def maxDict : Nat := 1048576
 
 /-- bounded tagged read as the repaired decoders do it: `varintTaggedGet(ptr, remaining, …)` -/
 def getB (bs : List Nat) : Option (Nat × Nat) :=
